@@ -794,7 +794,7 @@ def g_cr_in_misc(flags="ncb"):
         for doc in (c + "<r/>", "<r>" + c + "</r>", "<r/>" + c, p + "<r/>", "<r>x" + p + "y</r>", "<r/>" + p,
                     "<!DOCTYPE r [" + c + p + "]><r/>", "<!DOCTYPE r [<!ENTITY e '" + c + p + "'>]><r>&e;</r>",
                     "<!DOCTYPE r [<!ENTITY e 'u" + c + "v'>]><r>1&e;2</r>"):
-            out.append(Case(doc, flags, True, meta={"gen": "cr-in-comment-pi"}))
+            out.append(Case(doc, flags, True, meta={"gen": "cr-in-comment-pi", "misc_verbatim": True, "expect_all_borrowed": "&e;" not in doc}))
     return out
 
 
@@ -926,4 +926,28 @@ def g_ent_fanout_sep(fs, ds, flags="c"):
                     out.append(Case(ent_doc_dq(decls, body), flags, True,
                                     meta={"gen": "fanout-sep-" + use, "f": f, "d": d, "sep": sep_val,
                                           "expect": "ok" if ok else "EntityReferenceLoop", "expect_len": exp_len if ok else None}))
+    return out
+
+
+def g_api_shapes(flags="nc"):
+    """small documents whose TREE SHAPE is unusual: an empty CDATA section (an empty Text node) as the last / only / middle
+    child, after elements, comments, text; nodes from entity values between siblings; comments / PIs around the root element;
+    multi-piece text before a comment; every read accessor is then asked on every node"""
+    out = []
+    docs = [
+        "<a><b/><![CDATA[]]></a>", "<r><a/><![CDATA[]]></r>", "<a><!--c--><![CDATA[]]></a>", "<a><b><c/></b><![CDATA[]]></a>",
+        "<a><![CDATA[]]></a>", "<a><b/><![CDATA[]]><c/></a>", "<a>t<![CDATA[]]></a>", "<a><?p?><![CDATA[]]></a>",
+        "<a><b><![CDATA[]]></b></a>", "<a><b/><![CDATA[]]><![CDATA[]]></a>", "<r><a><b/><![CDATA[]]></a><c/></r>",
+        "<r><a><b/></a><![CDATA[]]></r>", "<!--p--><a><b/><![CDATA[]]></a><!--e-->",
+        "<!DOCTYPE r [<!ENTITY e '<b/>'>]><r><a/>&e;<c/></r>", "<!DOCTYPE r [<!ENTITY e '<b/><!--k-->'>]><r>&e;<c/>t</r>",
+        "<!DOCTYPE r [<!ENTITY e '<![CDATA[]]>'>]><r><a/>&e;</r>", "<!DOCTYPE r [<!ENTITY e ''>]><r><a/>&e;</r>",
+        "<!DOCTYPE r [<!ENTITY i '<b/><!--c--><?p v?>'><!ENTITY o 'x &i; y'>]><r>&o;</r>",
+        "<!DOCTYPE r [<!ENTITY item '<i/>'><!ENTITY alias '&item;'>]><r>&alias;&alias;</r>",
+        "<!DOCTYPE r [<!ENTITY e '<b>t</b>'><!ENTITY f '&e;u&e;'>]><r>s&f;v<c/>&f;</r>",
+        "<!-- prolog --><e xmlns='u'/>", "<e/>\n<?pi v?>", "<!DOCTYPE e [<!--c--><?pi x?>]><e/>", "<?a?><!--b--><e><!--c--></e><?d?><!--e-->",
+        "<a>x<![CDATA[b]]><!--c--></a>", "<a><![CDATA[a]]><![CDATA[b]]><?p?></a>", "<a>1<b/>2<b/>3<b/>4<b/>5</a>",
+        "<root><a/><b/><c/><d/><e/></root>", "<root>\n  <group>\n    <i/>\n  </group>\n  <j/>\n</root>",
+    ]
+    for d in docs:
+        out.append(Case(d, flags, True, meta={"gen": "api-shape"}))
     return out
